@@ -30,6 +30,20 @@ macro_rules! check_overshoot {
                 report($ctx, "C20.skip_overshoot", format!("{}: skip({}) over {} items yields an item", $what, n + extra, n));
             }
         }
+        // internal iteration (count / last / fold may be overridden) of a fresh and of a partly
+        // consumed iterator covers exactly what is left
+        {
+            let c = $make.count();
+            let mut f = 0usize;
+            $make.for_each(|_| f += 1);
+            let mut it = $make;
+            let took = it.next().is_some() as usize;
+            let rest = it.fold(0usize, |a, _| a + 1);
+            let has_last = $make.last().is_some();
+            if c != n || f != n || took + rest != n || has_last != (n > 0) {
+                report($ctx, "C20.internal_iteration", format!("{}: {} items, but count() = {}, for_each visits {}, next() + fold visit {} + {}, last().is_some() = {}", $what, n, c, f, took, rest, has_last));
+            }
+        }
         if n >= 2 {
             // nth within range consumes exactly n+1 items
             let mut it = $make;
@@ -41,6 +55,18 @@ macro_rules! check_overshoot {
             }
         }
     }};
+}
+
+/// C19: the value through every serde format we have: JSON text (self-describing, lengths are
+/// ignored, byte strings are arrays of numbers), JSON through `serde_json::Value`, and CBOR
+/// (length-prefixed sequences and maps, native byte strings).
+fn through_serde<T: serde::Serialize + serde::de::DeserializeOwned>(v: &T) -> Vec<(&'static str, Result<T, String>)> {
+    let mut out = vec![];
+    out.push(("JSON", serde_json::to_vec(v).map_err(|e| format!("serialisation failed: {}", e)).and_then(|b| serde_json::from_slice::<T>(&b).map_err(|e| format!("deserialisation failed: {}", e)))));
+    out.push(("JSON value", serde_json::to_value(v).map_err(|e| format!("serialisation failed: {}", e)).and_then(|b| serde_json::from_value::<T>(b).map_err(|e| format!("deserialisation failed: {}", e)))));
+    let mut buf = vec![];
+    out.push(("CBOR", ciborium::ser::into_writer(v, &mut buf).map_err(|e| format!("serialisation failed: {}", e)).and_then(|_| ciborium::de::from_reader::<T, _>(&buf[..]).map_err(|e| format!("deserialisation failed: {}", e)))));
+    out
 }
 
 fn report(ctx: &mut MonCtx, rule: &str, detail: String) {
@@ -206,16 +232,15 @@ pub fn fasta_owned(rec: &fasta::OwnedRecord, ctx: &mut MonCtx) {
 
 fn serde_owned_fasta(rec: &fasta::OwnedRecord, ctx: &mut MonCtx) {
     ctx.serde_checked += 1;
-    match serde_json::to_vec(rec) {
-        Ok(bytes) => match serde_json::from_slice::<fasta::OwnedRecord>(&bytes) {
+    for (fmt, r) in through_serde(rec) {
+        match r {
             Ok(back) => {
                 if &back != rec {
-                    report(ctx, "C19.owned_roundtrip", format!("fasta OwnedRecord {:?}/{:?} changed by serde round trip", show(&rec.head), show(&rec.seq)));
+                    report(ctx, "C19.owned_roundtrip", format!("fasta OwnedRecord {:?}/{:?} changed by the {} round trip", show(&rec.head), show(&rec.seq), fmt));
                 }
             }
-            Err(e) => report(ctx, "C19.owned_roundtrip", format!("deserialisation failed: {}", e)),
-        },
-        Err(e) => report(ctx, "C19.owned_roundtrip", format!("serialisation failed: {}", e)),
+            Err(e) => report(ctx, "C19.owned_roundtrip", format!("{}: {} (fasta OwnedRecord {:?}/{:?})", fmt, e, show(&rec.head), show(&rec.seq))),
+        }
     }
 }
 
@@ -223,17 +248,16 @@ pub fn fasta_set(set: &fasta::RecordSet, ctx: &mut MonCtx) {
     if ctx.mon.serde {
         ctx.serde_checked += 1;
         let orig: Vec<RecObs> = set.into_iter().map(|r| crate::drive::fa_obs(&r)).collect();
-        match serde_json::to_vec(set) {
-            Ok(bytes) => match serde_json::from_slice::<fasta::RecordSet>(&bytes) {
+        for (fmt, r) in through_serde(set) {
+            match r {
                 Ok(back) => {
                     let again: Vec<RecObs> = back.into_iter().map(|r| crate::drive::fa_obs(&r)).collect();
                     if again != orig || back.len() != set.len() {
-                        report(ctx, "C19.set_roundtrip", format!("fasta RecordSet with {} records iterates {} records / different contents after serde round trip", orig.len(), again.len()));
+                        report(ctx, "C19.set_roundtrip", format!("fasta RecordSet with {} records iterates {} records / different contents after the {} round trip", orig.len(), again.len(), fmt));
                     }
                 }
-                Err(e) => report(ctx, "C19.set_roundtrip", format!("deserialisation failed: {}", e)),
-            },
-            Err(e) => report(ctx, "C19.set_roundtrip", format!("serialisation failed: {}", e)),
+                Err(e) => report(ctx, "C19.set_roundtrip", format!("{}: {}", fmt, e)),
+            }
         }
         // a clone must iterate identically as well
         let cl = set.clone();
@@ -292,6 +316,41 @@ fn seq_lines_history(rec: &fasta::RefRecord, o: &RecObs, ctx: &mut MonCtx) {
         }
         if lo != rem || hi != Some(rem) {
             report(ctx, "C20.seq_lines_size_hint", format!("after steps [{}] size_hint = ({},{:?}) but {} lines remain", desc, lo, hi, rem));
+            return;
+        }
+        if ctx.rng.chance(1, 7) {
+            // finish by internal iteration (count / last / fold / rfold may be overridden by the
+            // iterator): they consume exactly what is left
+            let rest: Vec<Vec<u8>> = model.iter().map(|l| l.to_vec()).collect();
+            let which = ctx.rng.below(5);
+            let (name, ok) = match which {
+                0 => ("count()", it.count() == rest.len()),
+                1 => ("last()", it.last().map(|l| l.to_vec()) == rest.last().cloned()),
+                2 => {
+                    let mut v = vec![];
+                    it.for_each(|l| v.push(l.to_vec()));
+                    ("for_each()", v == rest)
+                }
+                3 => {
+                    let mut v = it.rfold(vec![], |mut a, l| {
+                        a.push(l.to_vec());
+                        a
+                    });
+                    v.reverse();
+                    ("rfold()", v == rest)
+                }
+                _ => {
+                    let v: Vec<Vec<u8>> = it.rev().fold(vec![], |mut a, l| {
+                        a.insert(0, l.to_vec());
+                        a
+                    });
+                    ("rev().fold()", v == rest)
+                }
+            };
+            ctx.iter_steps += 1;
+            if !ok {
+                report(ctx, "C20.seq_lines_internal_iteration", format!("after steps [{}] {} does not cover exactly the {} lines that were left (record with {} lines)", desc, name, rest.len(), o.lines.len()));
+            }
             return;
         }
         let kind = ctx.rng.below(8);
@@ -418,16 +477,15 @@ pub fn fastq_owned(rec: &fastq::OwnedRecord, ctx: &mut MonCtx) {
 
 fn serde_owned_fastq(rec: &fastq::OwnedRecord, ctx: &mut MonCtx) {
     ctx.serde_checked += 1;
-    match serde_json::to_vec(rec) {
-        Ok(bytes) => match serde_json::from_slice::<fastq::OwnedRecord>(&bytes) {
+    for (fmt, r) in through_serde(rec) {
+        match r {
             Ok(back) => {
                 if &back != rec {
-                    report(ctx, "C19.owned_roundtrip", format!("fastq OwnedRecord {:?} changed by serde round trip", show(&rec.head)));
+                    report(ctx, "C19.owned_roundtrip", format!("fastq OwnedRecord {:?} changed by the {} round trip", show(&rec.head), fmt));
                 }
             }
-            Err(e) => report(ctx, "C19.owned_roundtrip", format!("deserialisation failed: {}", e)),
-        },
-        Err(e) => report(ctx, "C19.owned_roundtrip", format!("serialisation failed: {}", e)),
+            Err(e) => report(ctx, "C19.owned_roundtrip", format!("{}: {} (fastq OwnedRecord {:?})", fmt, e, show(&rec.head))),
+        }
     }
 }
 
@@ -435,17 +493,16 @@ pub fn fastq_set(set: &fastq::RecordSet, ctx: &mut MonCtx) {
     if ctx.mon.serde {
         ctx.serde_checked += 1;
         let orig: Vec<RecObs> = set.into_iter().map(|r| crate::drive::fq_obs(&r)).collect();
-        match serde_json::to_vec(set) {
-            Ok(bytes) => match serde_json::from_slice::<fastq::RecordSet>(&bytes) {
+        for (fmt, r) in through_serde(set) {
+            match r {
                 Ok(back) => {
                     let again: Vec<RecObs> = back.into_iter().map(|r| crate::drive::fq_obs(&r)).collect();
                     if again != orig || back.len() != set.len() {
-                        report(ctx, "C19.set_roundtrip", format!("fastq RecordSet with {} records iterates {} records / different contents after serde round trip", orig.len(), again.len()));
+                        report(ctx, "C19.set_roundtrip", format!("fastq RecordSet with {} records iterates {} records / different contents after the {} round trip", orig.len(), again.len(), fmt));
                     }
                 }
-                Err(e) => report(ctx, "C19.set_roundtrip", format!("deserialisation failed: {}", e)),
-            },
-            Err(e) => report(ctx, "C19.set_roundtrip", format!("serialisation failed: {}", e)),
+                Err(e) => report(ctx, "C19.set_roundtrip", format!("{}: {}", fmt, e)),
+            }
         }
         let cl = set.clone();
         let again: Vec<RecObs> = cl.into_iter().map(|r| crate::drive::fq_obs(&r)).collect();
